@@ -3,6 +3,7 @@ package verifharness
 import (
 	"fmt"
 	"runtime"
+	"sort"
 	"strings"
 	"time"
 
@@ -28,6 +29,35 @@ func frpGoroutines() int {
 		}
 	}
 	return n
+}
+
+// frpGoroutineSummary lists the top frp frame of every server goroutine with counts.
+func frpGoroutineSummary() string {
+	buf := make([]byte, 8<<20)
+	buf = buf[:runtime.Stack(buf, true)]
+	counts := map[string]int{}
+	for _, g := range strings.Split(string(buf), "\n\n") {
+		if !strings.Contains(g, "github.com/fatedier/frp/") || strings.Contains(g, "frp/verifharness") {
+			continue
+		}
+		top := ""
+		for _, l := range strings.Split(g, "\n") {
+			if strings.HasPrefix(l, "github.com/fatedier/frp/") {
+				top = l
+				if i := strings.Index(top, "("); i > 0 && !strings.HasPrefix(top[i:], "(*") {
+					top = top[:i]
+				}
+				break
+			}
+		}
+		counts[top]++
+	}
+	var out []string
+	for k, v := range counts {
+		out = append(out, fmt.Sprintf("%d x %s", v, k))
+	}
+	sort.Strings(out)
+	return strings.Join(out, "\n")
 }
 
 type relSpec struct {
